@@ -28,11 +28,17 @@ ACC_RDONLY, ACC_RDWR, ACC_TRUNC = 0, 1, 2
 # virtual file system: path (bytes or str, normalised to str) -> Store
 FS = {}
 OPEN_LOG = []        # (op, path, flags) for every h5f.create/open
+HANDLES = []         # every File object handed out (to check that none is leaked open)
 
 
 def reset():
     FS.clear()
     del OPEN_LOG[:]
+    del HANDLES[:]
+
+
+def open_handles(path=None):
+    return [h for h in HANDLES if not h.closed and (path is None or h.filename == _norm_path(path))]
 
 
 def _norm_path(p):
@@ -423,6 +429,7 @@ class File(Group):
         self.closed = False
         self.filename = fid.path
         self.flushes = 0
+        HANDLES.append(self)
 
     def _check_open(self):
         if self.closed:
